@@ -268,6 +268,9 @@ func cornerPair(g *G) (*genetics.Genome, *genetics.Genome) {
 		return mk(a), mk(b)
 	default: // random subsets of 1..N
 		n := 2 + g.intn(14)
+		if g.chance(0.3) { // large genomes: sizes around and beyond 20, 50, 100 genes
+			n = 15 + g.intn(200)
+		}
 		var a, b []int64
 		for i := 1; i <= n; i++ {
 			if g.chance(0.6) {
